@@ -2,7 +2,8 @@
 copy of the repository, run the property's quick check against it (VERIF_REPO) and require a VIOLATION.
 
 Usage: python tools/selftest.py [PID ...] [--only mutant-id] [--tier quick] [--keep-going]
-mutants/<PID>.json: [{"id", "file", "old", "new", "note"}...]  (exact single string replacement in the file)
+mutants/<PID>.json: [{"id", "file", "old", "new", "note"}...]  (exact single string replacement in the file) or
+{"id", "patch": "seeded/<dir>/patch.diff"} (an independently seeded break, applied with patch -p1)
 """
 import argparse
 import json
@@ -21,7 +22,12 @@ def run_mutant(pid, mutant, tier):
     scratch = tempfile.mkdtemp(prefix=f'mut-{pid}-')
     try:
         shutil.copytree(os.path.join(REPO, 'forml'), os.path.join(scratch, 'forml'), ignore=shutil.ignore_patterns('__pycache__'))
-        for edit in mutant.get('edits', [mutant]):
+        if 'patch' in mutant:  # an independently seeded break kept under seeded/<id>/patch.diff
+            done = subprocess.run(['patch', '-p1', '-s', '-d', scratch, '-i', os.path.join(HERE, mutant['patch'])], capture_output=True,
+                                  text=True, check=False)
+            if done.returncode:
+                return mutant['id'], 'BROKEN-MUTANT', f"patch does not apply: {done.stdout.strip()[:120]}"
+        for edit in ([] if 'patch' in mutant else mutant.get('edits', [mutant])):
             path = os.path.join(scratch, edit['file'])
             source = open(path, encoding='utf-8').read()
             if source.count(edit['old']) != 1:
@@ -61,7 +67,11 @@ def main():
             missed += status != 'CAUGHT'
             import re
 
-            files = sorted({e['file'] for e in mutant.get('edits', [mutant])})
+            if 'patch' in mutant:
+                text = open(os.path.join(HERE, mutant['patch']), encoding='utf-8').read()
+                files = sorted(set(re.findall(r'^\+\+\+ b/(\S+)', text, re.M)))
+            else:
+                files = sorted({e['file'] for e in mutant.get('edits', [mutant])})
             results.setdefault(pid, {})[mid] = {'status': status, 'tier': args.tier, 'files': files,
                                                 'mechanisms': sorted({m.rstrip(':') for m in re.findall(r'mechanism=([\w:+.-]+)', detail)})[:4]}
     if args.markdown:
